@@ -13,8 +13,8 @@ ACTIONS = ["Init", "Bump", "Shift", "Swap"]
 # read by bin/mkmanifest
 META = {
     "category": "model_checking",
-    "text": "TLC checks the four RFC 1982 laws (a+n > a for n in 1..2^(k-1)-1, antisymmetry, undefined exactly at distance 2^(k-1), shift invariance) and the equality of the transcribed partial_cmp/add with the RFC text for all pairs and all addends at 8 bits (9 and 11 bits thorough); every one of these k-bit evaluations is lifted to 32 bits by the exact embedding x*2^(32-k)+c (several offsets c, for ordered pairs also different offsets per side, which reaches the distances 2^31-1 and 2^31+1) and executed on Serial (partial_cmp, the five operators, add), Timestamp, SOA/RRSIG wire round trips, sign_rrset's validity-period check, the zone diff builder's serial-range check, the XFR middleware's IXFR decision (single SOA for a client with the same or a newer serial, transfer otherwise; XfrMiddlewareSvc::preprocess with a data provider that offers diffs) and new::base::Serial; recorded library runs on dense 32-bit operands (boundary distances 2^31+-2, neighbourhoods of 0 and 2^32-1, panicking addends, the zone store's SOA serial bump on commit) are validated by TLC through a 16-bit-limb model that TLC proves equal to the integer model at small widths.",
-    "note": "Trusted: TLC, the transcription of RFC 1982 in Serial.tla, the uniformity in the limb base of SerialLimbs.tla (equivalence is TLC-checked at limb widths 4/5, used at 16), the harness. zonetree's Version type is private (not driven; derives its order from Serial). Sites that compare serials/timestamps but are not bound here: validator check_sig / ttl_for_sig (plain u32 order, real clock; reported to C14), server cookie timestamp_ok (real clock, cannot straddle the wrap), new::edns::Cookie::verify (Range<new Serial>::contains, delegates to the bound partial_cmp), new::rdata Timestamp (not exported), Timestamp::to_system_time; net::client::stream and the XFR interpreter compare serials by equality only. Dense 2^64 coverage is sampled by traces; the full sweep of all 2^32 differences uses a Rust reference that the same TLC runs bind to the spec and is reported separately as an extension, as is the optional Apalache run for BITS=32.",
+    "text": "TLC checks the four RFC 1982 laws (a+n > a for n in 1..2^(k-1)-1, antisymmetry, undefined exactly at distance 2^(k-1), shift invariance) and the equality of the transcribed partial_cmp/add with the RFC text for all pairs and all addends at 8 bits (9 and 11 bits thorough); every one of these k-bit evaluations is lifted to 32 bits by the exact embedding x*2^(32-k)+c (several offsets c, for ordered pairs also different offsets per side, which reaches the distances 2^31-1 and 2^31+1) and executed on Serial (partial_cmp, the five operators, add), Timestamp, SOA/RRSIG wire round trips, sign_rrset's validity-period check, the zone diff builder's serial-range check, the XFR middleware's IXFR decision (single SOA for a client with the same or a newer serial, transfer otherwise; XfrMiddlewareSvc::preprocess with a data provider that offers diffs) and new::base::Serial; the placement of a signature time next to a reference time (Timestamp::to_system_time) is specified as Place(ref, ts) with its order-embedding and shift laws checked by TLC for all reference times in three eras (6 bits quick, 7 thorough), and every case is lifted (independent offsets on reference and serial) and executed; recorded library runs on dense 32-bit operands (boundary distances 2^31+-2, neighbourhoods of 0 and 2^32-1, panicking addends, the zone store's SOA serial bump on commit) are validated by TLC through a 16-bit-limb model that TLC proves equal to the integer model at small widths.",
+    "note": "Trusted: TLC, the transcription of RFC 1982 in Serial.tla, the uniformity in the limb base of SerialLimbs.tla (equivalence is TLC-checked at limb widths 4/5, used at 16), the harness. zonetree's Version type is private (not driven; derives its order from Serial). Sites that compare serials/timestamps but are not bound here: validator check_sig / ttl_for_sig (plain u32 order, real clock; reported to C14), server cookie timestamp_ok (real clock, cannot straddle the wrap), new::edns::Cookie::verify (Range<new Serial>::contains, delegates to the bound partial_cmp), new::rdata Timestamp including its copy of to_system_time (type not exported); net::client::stream and the XFR interpreter compare serials by equality only. Dense 2^64 coverage is sampled by traces; the full sweep of all 2^32 differences uses a Rust reference that the same TLC runs bind to the spec and is reported separately as an extension, as is the optional Apalache run for BITS=32.",
     "technique": "TLA+ spec (Serial.tla, SerialLimbs.tla) + TLC exhaustive; spec->impl replay through scaled embedding; impl->spec limb-encoded trace validation; reference sweep and Apalache as extensions",
     "design_ref": "DESIGN.md §4 C17",
 }
@@ -43,7 +43,11 @@ def _count_case_kinds(path):
 
 
 def _trace_stats(path):
+    """kinds of recorded events; for placements the kind is derived from the
+    *inputs* (era of the reference, whether the placed time has to cross an
+    era boundary), never from the library's answer"""
     c = {}
+    cur = 0
     for o in vlib.read_ndjson(path):
         if o["ev"] == "cmp":
             k = "cmp:" + o["serial"]
@@ -51,9 +55,23 @@ def _trace_stats(path):
             k = "add:" + ("ok" if "ok" in o["serial"] else "panic")
         elif o["ev"] == "zonebump":
             k = "zonebump:" + ("ok" if "ok" in o["serial"] else "failed")
+        elif o["ev"] == "place":
+            r = (o["r"][0] << 16) | o["r"][1]
+            d = (cur - r) % (1 << 32)
+            if d == 1 << 31:
+                how = "half"
+            elif d < 1 << 31:
+                how = "up" if cur < r else "same"
+            else:
+                how = "down" if cur > r else "same"
+            k = "place:era%d:%s" % (o["era"], how)
         else:
             k = o["ev"]
         c[k] = c.get(k, 0) + 1
+        if o["ev"] == "set":
+            cur = (o["v"][0] << 16) | o["v"][1]
+        elif o["ev"] in ("add", "zonebump") and "ok" in o["serial"]:
+            cur = (o["serial"]["ok"][0] << 16) | o["serial"]["ok"][1]
     return c
 
 
@@ -101,6 +119,8 @@ def _reject_to_violation(ctx, trace_path, rej, what):
         call = "add %d %d" % (cur, _val(ev["n"]))
     elif ev.get("ev") == "zonebump":
         call = "bump %d 0" % cur
+    elif ev.get("ev") == "place":
+        call = "place %d %d %d" % (cur, _val(ev["r"]), ev["era"])
     else:
         raise vlib.ToolError("trace rejected at a %r event: %r" % (ev.get("ev"), rej))
     ok, rej2 = _confirm(ctx, [call], "confirm")
@@ -172,6 +192,11 @@ def run(ctx):
         mp = ctx.tlc("MC_Serial", "MC_Serial_pairs", workers=8, label="mc-pairs-11bit",
                      coverage=False, timeout=3000)
         ctx.require_ok(mp, "MC_Serial_pairs")
+    # placement of a serial next to a reference time (Timestamp::to_system_time)
+    pl = ctx.tlc("MC_SerialPlace", "MC_SerialPlace_thorough" if thorough else "MC_SerialPlace",
+                 workers=8, label="mc-place", timeout=3000)
+    ctx.require_ok(pl, "MC_SerialPlace")
+    ctx.require_actions(pl, ["Init", "Tick", "Later"])
     # the limb model used for 32-bit operands equals the integer model
     lim = ctx.tlc("MC_SerialLimbs", "MC_SerialLimbs_thorough" if thorough else "MC_SerialLimbs",
                   workers=8, label="limbs-equiv", timeout=3000)
@@ -210,6 +235,22 @@ def run(ctx):
                                           stdin_path=head)
             ctx.selftest("perturbed expectation is reported by replay_serial", "FAIL " in out)
         ctx.replay_cases("replay_serial", cases, label="serial-" + tag)
+
+    # placement cases: every (reference time in 3 eras, serial) pair
+    pcases = os.path.join(ctx.work, "cases-place.ndjson")
+    pg = ctx.tlc("MC_SerialPlace", "Gen_SerialPlace_thorough" if thorough else "Gen_SerialPlace",
+                 workers=8, label="gen-place", coverage=False, cases_to=pcases, count=False,
+                 timeout=3000)
+    ctx.require_ok(pg, "Gen_SerialPlace")
+    with open(pcases) as f:
+        text = f.read()
+    n_free = text.count('"free":true')
+    n_con = text.count('"free":false')
+    if n_free == 0 or n_con < 1000:
+        raise vlib.ToolError("vacuity: placement cases free=%d constrained=%d" % (n_free, n_con))
+    kinds_total["place_constrained"] = n_con
+    kinds_total["place_free"] = n_free
+    ctx.replay_cases("replay_serial", pcases, label="serial-place")
 
     # 3. I->S: recorded runs on dense 32-bit operands, judged through limbs --
     n_traces = 6 if thorough else 2
@@ -258,9 +299,12 @@ def run(ctx):
                                                label="trace-selftest-" + kind)
                 ctx.selftest("corrupted %s result is rejected by Trace_Serial" % kind, not ok2)
     need = ["set", "cmp:LT", "cmp:EQ", "cmp:GT", "cmp:UNDEF", "add:ok", "add:panic",
-            "zonebump:ok"]
+            "zonebump:ok", "place:era0:same", "place:era0:up", "place:era0:down",
+            "place:era1:up", "place:era1:down", "place:era2:up", "place:half"]
+    tstats["place:half"] = sum(v for k, v in tstats.items()
+                               if k.startswith("place:") and k.endswith(":half"))
     missing = [k for k in need if tstats.get(k, 0) == 0]
-    if missing:
+    if missing and not ctx.violations:
         raise vlib.ToolError("vacuity: recorded traces never contain %s" % missing)
 
     # 4. extension: sweep the 2^32 differences with the TLC-bound reference --
@@ -314,6 +358,8 @@ def run(ctx):
                "the thorough tier) and relied upon at width 16")
     ctx.assume("Soa's PartialOrd/Ord/CanonicalOrd compare serials as plain integers by design "
                "(record ordering, not zone-version ordering) and are not part of this property")
+    ctx.assume("to_system_time: at distance exactly 2^31 from the reference and where the "
+               "placement would lie before the epoch only 'result = ts (mod 2^32)' is required")
     ctx.assume("zonetree Version (private type, derives PartialOrd from Serial) is not driven "
                "directly; Versioned::get's `item.0 <= version` would need 2^31 commits to wrap")
     ctx.assume("IXFR decision: RFC 1995 section 2 (same or newer client serial -> single SOA); "
@@ -322,7 +368,7 @@ def run(ctx):
     ctx.assume("not bound (listed, not checked): validator check_sig/ttl_for_sig signature-time "
                "tests (plain u32 order, real clock), server cookie timestamp_ok (real clock), "
                "new::edns::Cookie::verify (Range<Serial>::contains), new::rdata Timestamp "
-               "(private), Timestamp::to_system_time; client stream / XFR interpreter use "
+               "with its copy of to_system_time (type not exported); client stream / XFR interpreter use "
                "serial equality only")
 
 
